@@ -915,12 +915,16 @@ impl Reader {
         writer_proxy.received_heartbeat_count = heartbeat.count;
 
         // remove changes until first_sn.
+        let ackable_before_heartbeat = writer_proxy.all_ackable_before();
         writer_proxy.irrelevant_changes_up_to(heartbeat.first_sn);
 
         let marker_moved = this
           .acquire_the_topic_cache_guard()
           .mark_reliably_received_before(writer_guid, writer_proxy.all_ackable_before());
-        if marker_moved {
+        // The marker is shared by all the Readers of this topic in the participant,
+        // so another Reader may have moved it already. Our own DataReader still needs
+        // to be notified, if this HEARTBEAT moved us forward.
+        if marker_moved || writer_proxy.all_ackable_before() > ackable_before_heartbeat {
           this.notify_cache_change();
         }
 
@@ -1071,6 +1075,7 @@ impl Reader {
       return;
     }
     let all_ackable_before;
+    let ackable_before_gap;
     {
       let writer_proxy = if let Some(wp) = self.matched_writer_mut(writer_guid) {
         wp
@@ -1107,6 +1112,7 @@ impl Reader {
       // composed of two groups:
       //   1. All sequence numbers in the range gapStart <= sequence_number <
       // gapList.base
+      ackable_before_gap = writer_proxy.all_ackable_before();
       writer_proxy.irrelevant_changes_range(gap.gap_start, gap.gap_list.base());
 
       //   2. All the sequence numbers that appear explicitly listed in the gapList.
@@ -1127,7 +1133,11 @@ impl Reader {
     // Receiving a GAP could make a Reliable stream.
     // E.g. we had #2, but were missing #1. Now GAP says that #1 does not exist.
     // Then a Reliable Datareader
-    if marker_moved {
+    //
+    // The marker is shared by all the Readers of this topic in the participant,
+    // so another Reader may have moved it already. Our own DataReader still needs
+    // to be notified, if this GAP moved us forward.
+    if marker_moved || all_ackable_before > ackable_before_gap {
       self.notify_cache_change();
     }
     // able to move forward, i.e. hand over data to application, if
